@@ -12,6 +12,7 @@
 #include <time.h>
 #include <sys/time.h>
 #include <ucontext.h>
+extern "C" void __gcov_dump(void) __attribute__((weak));
 
 extern "C" {
 struct mi_sim_site_s { const char* file; const char* func; int line; int kind; int id; int flags; };
@@ -242,6 +243,7 @@ static void hex64(char* b, size_t n, uint64_t v) { snprintf(b, n, "%016llx", (un
   o.s += "}\n";
   size_t off = 0;
   while (off < o.s.size()) { ssize_t w = write(g_result_fd, o.s.data() + off, o.s.size() - off); if (w <= 0) break; off += (size_t)w; }
+  if (__gcov_dump) __gcov_dump();     // only in the coverage build of tools/covreport.py (weak, otherwise null)
   _exit(code);
 }
 
